@@ -24,7 +24,7 @@ func init() {
 		Run:  runC26,
 		Race: true,
 		Quick: 2400, Thor: 150000, QuickWallS: 45,
-		Rule: "a world = one UConn shared by 1-3 Handshake/HandshakeContext callers (each context may be cancelled at a drawn scheduler step, before or after its call returned), a reader, a writer, optionally a closer (Close/CloseWrite at a drawn step) and optionally a transport fault; a quarter of the TLS 1.3 worlds use the reference server, which sends KeyUpdate(update_requested) between its echo writes; 40% of the TLS 1.2 worlds use the reference server, which sends a HelloRequest after its handshake or between its echo writes (client renegotiation support drawn: never/once/freely) - the renegotiation then fails, only safety is asserted; every mutex acquisition, atomic operation and transport operation is a scheduling point; non-trivial = >=2 client tasks overlapped (one was granted between another's invoke and return); distinct = (task set, parrot, peer, fault kind, schedule hash)",
+		Rule: "a world = one UConn shared by 1-3 Handshake/HandshakeContext callers (each context may be cancelled at a drawn scheduler step, before or after its call returned), a reader, a writer, optionally a closer (Close/CloseWrite at a drawn step) and optionally a transport fault; a quarter of the TLS 1.3 worlds use the reference server, which sends KeyUpdate(update_requested) between its echo writes; 40% of the TLS 1.2 worlds use the reference server, which sends a HelloRequest after its handshake or between its echo writes (client renegotiation support drawn: never/once/freely) - the renegotiation then fails, only safety is asserted; after the first phase two further tasks call ConnectionState().ExportKeyingMaterial concurrently with different contexts (compared with the server's values); every mutex acquisition, atomic operation and transport operation is a scheduling point; non-trivial = >=2 client tasks overlapped (one was granted between another's invoke and return); distinct = (task set, parrot, peer, fault kind, schedule hash)",
 		Assumptions: []string{
 			"the race detector sees only program synchronisation because scheduler hand-off uses a no-op-Locker sync.Cond and //go:norace state (DESIGN 2.7); races that need true parallelism inside one library call are outside the simulator",
 			"'every call returns within the I/O deadline' is checked against the 20 s connection deadline the scenario sets plus the library's own 5 s close_notify allowance",
@@ -275,6 +275,33 @@ func runC26(c *Ctx) {
 			H = true
 		}
 	}
+	// exporters: two tasks derive keying material from the same connection at once, each with its
+	// own context; every value must equal what the server derives for the same arguments
+	type ekmRes struct {
+		ctx  []byte
+		vals [][]byte
+		err  error
+	}
+	ekm := []*ekmRes{{ctx: []byte("ctx-A")}, {ctx: []byte("context-B-is-longer")}}
+	var ekmTasks []*simrt.Task
+	if !w.Deadlock && !w.StepCapHit && !transportClosedAfterPhase1 && u.ConnectionState().HandshakeComplete {
+		for i, e := range ekm {
+			e := e
+			ekmTasks = append(ekmTasks, w.Go(fmt.Sprintf("ekm%d", i), func() {
+				for k := 0; k < 3; k++ {
+					simrt.Yield()
+					st := u.ConnectionState()
+					v, err := st.ExportKeyingMaterial("EXPORTER-verif-c26", e.ctx, 32)
+					if err != nil {
+						e.err = err
+						return
+					}
+					e.vals = append(e.vals, v)
+				}
+			}))
+		}
+		w.RunUntil(ekmTasks...)
+	}
 	var finalErr error
 	finalOK := false
 	var fin *simrt.Task
@@ -412,6 +439,26 @@ func runC26(c *Ctx) {
 	for i, hc := range callers {
 		if hc.err == nil && !H {
 			c.Violate("nil-without-completion", "caller %d returned nil but the handshake never completed", i)
+		}
+	}
+
+	// (O6) concurrent exporters agree with the server
+	if o.SDone && o.S.EKM != nil {
+		for i, e := range ekm {
+			if e.err != nil || len(e.vals) == 0 {
+				continue
+			}
+			want, err := o.S.EKM("EXPORTER-verif-c26", e.ctx, 32)
+			if err != nil {
+				continue
+			}
+			c.Probe("concurrent-exporters-compared")
+			for _, v := range e.vals {
+				if !bytes.Equal(v, want) {
+					c.Violate("concurrent-exporter-mismatch", "exporter task %d (context %q) got %x, the server derives %x", i, e.ctx, v, want)
+					break
+				}
+			}
 		}
 	}
 
